@@ -9,6 +9,7 @@
 #include <cstring>
 #include <map>
 #include <random>
+#include <set>
 using namespace yakushima;
 static std::map<std::string, std::string> A;
 static long argi(const char* k, long d) { auto it = A.find(k); return it == A.end() ? d : atol(it->second.c_str()); }
@@ -18,7 +19,9 @@ struct Op { std::string kind; std::string k; int v = 0; bool uniq = false;      
             std::string l, r; scan_endpoint le{}, re{}; std::size_t max = 0; bool rtl = false; long limit = -1; bool ea = false;
             std::string st; int rv = -1; long inv = 0, ret = 0; int t = 0;                       // response
             std::vector<std::pair<std::string, int>> tl; std::string end;
-            std::vector<std::pair<node_version64_body, node_version64*>> nv; std::vector<bool> stale; bool probed = false; };
+            std::vector<std::pair<node_version64_body, node_version64*>> nv; std::vector<bool> stale; bool probed = false;
+            // put report (C12) under concurrency: border version words this call's unlocks advanced vs. the nodes it reported
+            std::size_t li0 = 0, li1 = 0; node_version64* mod = nullptr; node_version64* cre = nullptr; int unrep = -1, unbump = -1; };
 static std::atomic<long> g_seq{0};
 // value encoding: length 8 + 8 * (id % 3), every 4-byte word = id  (a torn or mixed value decodes to -2)
 static std::size_t vlen(int id) { return 8 + 8 * (id % 3); }
@@ -91,17 +94,18 @@ static std::string opjson(const Op& o) {
         for (std::size_t i = 0; i < o.stale.size(); i++) { if (i) j += ","; j += vh::jb(o.stale[i]); }
         j += "]";
     } else j += ",\"k\":" + vh::jbytes(o.k) + ",\"v\":" + std::to_string(o.v) + ",\"rv\":" + std::to_string(o.rv);
+    if (o.unrep >= 0) j += ",\"rep\":{\"n\":" + std::to_string((o.mod ? 1 : 0) + (o.cre ? 1 : 0)) + ",\"unrep\":" + std::to_string(o.unrep) + ",\"unbump\":" + std::to_string(o.unbump) + "}";
     return j + "}";
 }
 int main(int argc, char** argv) {
     for (int i = 1; i < argc; i++) { std::string a = argv[i]; auto p = a.find('='); if (p != std::string::npos) A[a.substr(0, p)] = a.substr(p + 1); }
     vh::install_fault_handlers(argi("alarm", 120));
     long seed = argi("seed", 1), nscn = argi("scenarios", 20), runs = argi("runs", 10), nth = argi("threads", 2), opsper = argi("opsper", 2);
-    long directed = argi("directed", 0);
+    long directed = argi("directed", 0); const bool rep = argi("rep", 0) != 0;
     long pscan = argi("scans", 0), piscan = argi("iscans", 0), pre_max = argi("premax", 400);
     std::string fam = args("family", "border"), sched = args("sched", "random");
     rng.seed(seed);
-    vs::install(); thread_info_table::init();
+    vs::install(); thread_info_table::init(); if (rep) vs::S.record = true;
     static std::string cur_line;    // what to print if the run aborts (deadlock / livelock)
     vs::S.on_abort = [](const char* why) { printf("{\"e\":\"abort\",\"why\":\"%s\",\"run\":%s}\n", why, cur_line.empty() ? "{}" : cur_line.c_str()); };
     vh::g_flush = [] { printf("{\"e\":\"faultrun\",\"run\":%s}\n", cur_line.empty() ? "{}" : cur_line.c_str()); };
@@ -124,6 +128,7 @@ int main(int argc, char** argv) {
             else if (fam == "links") { long y = rng() % 100; o.kind = y < 15 ? "get" : y < 75 ? "put" : y < 85 ? "uput" : "rem"; o.k = k; o.uniq = o.kind == "uput"; }
             else if (fam == "chain") { long y = rng() % 100; o.kind = y < 10 ? "get" : y < 55 ? "put" : "rem"; o.k = k; }
             else if (fam == "pair") { long y = rng() % 100; o.kind = y < 15 ? "get" : y < 35 ? "put" : "rem"; o.k = k; }
+            else if (argi("pputs", 0) > 0 && (long)(rng() % 100) < argi("pputs", 0)) { o.kind = rng() % 5 ? "put" : "uput"; o.k = k; o.uniq = o.kind == "uput"; }
             else { long y = rng() % 100; o.kind = y < 30 ? "get" : y < 55 ? "put" : y < 70 ? "uput" : "rem"; o.k = k; o.uniq = o.kind == "uput"; }
             o.t = (int)t + 1; prog[t].push_back(o); } }
         // directed templates (every other scenario of the non-DDL families): patterns that random programs rarely produce
@@ -226,7 +231,9 @@ int main(int argc, char** argv) {
                 for (auto& o : ops[t]) {
                     o.inv = ++g_seq;
                     if (o.kind == "get") { std::pair<char*, std::size_t> out{nullptr, 0}; status rc = get<char>(&ti, o.k, out); o.st = vh::stname(rc); o.rv = rc == status::OK ? vdec(out.first, out.second) : -1; }
-                    else if (o.kind == "put" || o.kind == "uput") { int buf[8]; venc(o.v, buf); status rc = put<char>(tok[t], &ti, o.k, (char*)buf, o.uniq, vlen(o.v)); o.st = vh::stname(rc); }
+                    else if (o.kind == "put" || o.kind == "uput") { int buf[8]; venc(o.v, buf); inserted_node_info info{}; o.li0 = vs::S.log.size();
+                        status rc = put<char>(tok[t], &ti, o.k, (char*)buf, o.uniq, vlen(o.v), nullptr, static_cast<value_align_type>(alignof(char)), rep ? &info : nullptr); o.st = vh::stname(rc);
+                        o.li1 = vs::S.log.size(); o.mod = info.modified_nvp; o.cre = info.created_nvp; }
                     else if (o.kind == "rem") { status rc = remove(tok[t], &ti, o.k); o.st = vh::stname(rc); }
                     else if (o.kind == "create") { status rc = create_storage(o.k); o.st = vh::stname(rc); o.v = 1; }
                     else if (o.kind == "delete") { status rc = delete_storage(o.k); o.st = vh::stname(rc); }
@@ -267,6 +274,19 @@ int main(int argc, char** argv) {
             vs::run(bodies, (int)(vs::S.rng() % nth));
             if (sched == "pre1" && plans[r].size() > (std::size_t)nth) { int a = plans[r][0].first; long k = plans[r][0].second; if (vs::S.points[a] <= k || vs::S.pi == 0) { thread_len_known[a] = true; thread_len[a] = vs::S.points[a]; } }
             long steps = vs::S.steps;
+            // C12 under concurrency: per put, the border version words whose counters this call's own unlocks advanced (lock .. unlock of
+            // the same thread; a border created locked by a split counts from its version copy) against the reported nodes
+            if (rep && sched != "free") for (long t = 0; t < nth; t++) for (auto& o : ops[t]) if (o.kind == "put" || o.kind == "uput") {
+                auto cnt = [](std::uint64_t w) { node_version64_body b; memcpy((void*)&b, &w, 8); return std::make_pair((std::uint64_t)b.get_vinsert_delete(), (std::uint64_t)b.get_vsplit()); };
+                auto bod = [](std::uint64_t w) { node_version64_body b; memcpy((void*)&b, &w, 8); return b; };
+                std::map<const void*, std::pair<std::uint64_t, std::uint64_t>> base; std::set<const void*> bumped;
+                for (std::size_t i = o.li0; i < o.li1 && i < vs::S.log.size(); i++) { auto& e = vs::S.log[i]; if (e.t != (int)t) continue;
+                    if (e.kind == verif::k_ver_cas && e.a == 1) base[e.obj] = cnt(e.peek);
+                    else if (e.kind == verif::k_ver_store && bod(e.peek).get_locked() && !base.count(e.obj)) base[e.obj] = cnt(e.peek);
+                    else if (e.kind == verif::k_ver_cas && e.a == 2 && base.count(e.obj)) { if (cnt(e.peek) != base[e.obj] && bod(e.peek).get_border()) bumped.insert(e.obj); base.erase(e.obj); } }
+                std::set<const void*> reported; if (o.st == "OK" && o.mod) reported.insert(o.mod); if (o.st == "OK" && o.cre) reported.insert(o.cre);
+                o.unrep = 0; o.unbump = 0; for (auto* b : bumped) if (!reported.count(b)) o.unrep++; for (auto* r2 : reported) if (!bumped.count(r2)) o.unbump++;
+            }
             // quiescent view: node-version probes of scans, point lookups of the universe, full scan, structure dump
             for (auto& v : ops) for (auto& o : v) if (!o.nv.empty()) { o.probed = true; for (auto& pr : o.nv) o.stale.push_back(!(pr.second->get_stable_version() == pr.first)); }
             std::string out = head + ",\"steps\":" + std::to_string(steps) + ",\"ops\":["; f = true;
